@@ -356,12 +356,15 @@ func c05GenRun(r *rand.Rand, emit vutil.Emit, n int) {
 		scn = append(scn, [3]string{k, "access_set", "home"})
 	}
 	scn = append(scn, [3]string{"safebrowsing", "access_set", "blockhost"}, [3]string{"parental", "dns_config", "blockhost"})
+	// statistics readers and writers against continuous unit rotation
+	scn = append(scn, [3]string{"mixed", "stats_read", "rotate"}, [3]string{"plain", "stats_config", "rotate"},
+		[3]string{"mixed", "mixed", "rotate"})
 	for i := 0; i < n; i++ {
 		var sc [3]string
 		if i < len(scn) {
 			sc = scn[i]
 		} else {
-			sc = [3]string{vutil.Pick(r, c05DNSKinds), vutil.Pick(r, c05AdminOps), vutil.Pick(r, []string{"home", "norecurse", "norecurse", "blockhost"})}
+			sc = [3]string{vutil.Pick(r, c05DNSKinds), vutil.Pick(r, c05AdminOps), vutil.Pick(r, []string{"home", "norecurse", "norecurse", "blockhost", "rotate"})}
 		}
 		emit("C05.run", sc[0], sc[1], vutil.Itoa(2+r.IntN(2)), vutil.Itoa(120+r.IntN(120)), "2",
 			vutil.Itoa(int(r.Uint32()>>1)), sc[2])
@@ -429,7 +432,11 @@ type c05World struct {
 	// host names (the defaults), so that only the recursive read lock inside
 	// package dnsforward (genBlockedHost > proxy) remains.
 	blockhost bool
-	t        *testing.T
+	// rotate: as norecurse, and the statistics unit ID changes on every call
+	// (about every 2 ms), so that the flush worker rotates the unit and writes
+	// the database all the time, like at every hour boundary.
+	rotate bool
+	t      *testing.T
 	srv      *Server
 	flt      *filtering.DNSFilter
 	st       *stats.StatsCtx
@@ -548,8 +555,11 @@ func c05StartUpstream(t *testing.T) (addr string) {
 }
 
 func c05NewWorld(t *testing.T, dir string, wiring string) (w *c05World) {
-	norecurse := wiring == "norecurse" || wiring == "blockhost"
-	w = &c05World{t: t, handlers: map[string]http.HandlerFunc{}, dir: dir, norecurse: norecurse, blockhost: wiring == "blockhost"}
+	norecurse := wiring == "norecurse" || wiring == "blockhost" || wiring == "rotate"
+	w = &c05World{
+		t: t, handlers: map[string]http.HandlerFunc{}, dir: dir, norecurse: norecurse,
+		blockhost: wiring == "blockhost", rotate: wiring == "rotate",
+	}
 	ctx := context.Background()
 	logger := slogutil.NewDiscardLogger()
 	var err error
@@ -609,7 +619,18 @@ func c05NewWorld(t *testing.T, dir string, wiring string) (w *c05World) {
 	w.flt.SetEnabled(true)
 
 	statsIgn, _ := aghnet.NewIgnoreEngine(nil)
+	var unitID stats.UnitIDGenFunc
+	if w.rotate {
+		var ctr atomic.Uint32
+		ctr.Store(uint32(time.Now().Unix() / 3600))
+		unitID = func() (id uint32) {
+			time.Sleep(2 * time.Millisecond)
+
+			return ctr.Add(1)
+		}
+	}
 	w.st, err = stats.New(stats.Config{
+		UnitID: unitID,
 		Logger: logger, Filename: filepath.Join(dir, "stats.db"), Limit: 24 * time.Hour,
 		ConfigModified: w.configModified, HTTPRegister: w.register, Enabled: true,
 		ShouldCountClient: w.shouldCountClient, Ignored: statsIgn,
@@ -795,6 +816,9 @@ func (w *c05World) adminOp(kind string, i int, r *rand.Rand) {
 		}
 	case "stats_read":
 		w.call("GET", "/control/stats", "")
+		if i%4 == 0 {
+			_ = w.st.TopClientsIP(10)
+		}
 	case "dns_config":
 		// not on the property's list of operations, but also a setting changed
 		// through the admin API while queries are served
